@@ -455,6 +455,30 @@ def suite_C16():
         k += 1
         cases.append(('p%d' % k, 'int(str(%s)) == %s' % (ea, ea), '1', dict(n=a, repr=ra, flag='int(str(n))')))
         k += 1
+    import base64
+    for bs in [[], [0], [1, 2], [15, 16, 255], [0, 0, 7], list(range(0, 40, 3)), [255, 254, 253, 1]]:
+        lst = 'bytes([%s])' % ', '.join(map(str, bs))
+        cases.append(('h%d' % k, 'hex_encode(%s)' % lst, bytes(bs).hex(), dict(bytes=bs, what='hex_encode')))
+        k += 1
+        cases.append(('g%d' % k, 'hex_decode(hex_encode(%s)) == %s' % (lst, lst), '1', dict(bytes=bs, what='hex round trip')))
+        k += 1
+        cases.append(('b%d' % k, 'base64_encode(%s)' % lst, base64.b64encode(bytes(bs)).decode(), dict(bytes=bs, what='base64_encode')))
+        k += 1
+        cases.append(('c%d' % k, 'base64_decode(base64_encode(%s)) == %s' % (lst, lst), '1', dict(bytes=bs, what='base64 round trip')))
+        k += 1
+    for st in ['', 'a', 'h\u00e9', 'z\u4e16\u754c', 'tab\\tq']:
+        lit_s = '"%s"' % st.encode('utf-8').decode('unicode_escape').encode('latin-1', 'ignore').decode('latin-1') if False else None
+    for st in ['', 'a', 'abc xyz', '0123']:
+        cases.append(('u%d' % k, 'utf8_decode(utf8_encode("%s")) == "%s"' % (st, st), '1', dict(string=st, what='utf8 round trip')))
+        k += 1
+        cases.append(('e%d' % k, 'list(utf8_encode("%s"))' % st, '[%s]' % ', '.join(str(b) for b in st.encode()), dict(string=st, what='utf8_encode')))
+        k += 1
+    for cp in [65, 97, 233, 0x4e16, 0x1f600]:
+        cases.append(('o%d' % k, 'ord(chr(%d))' % cp, str(cp), dict(code_point=cp, what='chr/ord')))
+        k += 1
+    for txt, q in [('1.5', Fraction(3, 2)), ('3/4', Fraction(3, 4)), ('2e3', Fraction(2000)), ('0.125', Fraction(1, 8)), ('10', Fraction(10)), ('1.5e-2', Fraction(3, 200))]:
+        cases.append(('q%d' % k, 'rational("%s")' % txt, show_frac(q), dict(text=txt, what='rational(s)')))
+        k += 1
     for n, b in itertools.product([0, 1, 35, 36, 255, 2**64 + 7, -255], [2, 8, 10, 16, 35, 36]):
         cases.append(('s%d' % k, 'str_radix(%s, %d)' % (lit(n), b), rend(n, b), dict(n=n, base=b, what='str_radix')))
         k += 1
